@@ -6,13 +6,13 @@ import vlib
 KINDS = ["bdd", "bcdd", "zbdd"]
 
 
-def _record_and_replay(ck, prop, tier, seed, base_args, variants, features_list=("idx,cache,mt",), kinds=KINDS):
+def _record_and_replay(ck, prop, tier, seed, base_args, variants, features_list=("idx,cache,mt",), kinds=KINDS, sub=""):
     """record histories once, re-execute the same calls under every variant
     (driver arguments) x feature set, validate every execution on its own and
     the product trace by TraceConfig"""
     base_bin = vlib.build_harness("idx,cache,mt")
     for i, k in enumerate(kinds):
-        od = os.path.join(ck.outdir, "rec-" + k)
+        od = os.path.join(ck.outdir, "rec-" + sub + k)
         args = dict(base_args)
         args.update({"kind": k, "seed": seed * 19 + i, "tier": tier})
         res = vlib.run_driver(base_bin, "hist", args, od)
@@ -24,7 +24,7 @@ def _record_and_replay(ck, prop, tier, seed, base_args, variants, features_list=
         for feats in features_list:
             binary = vlib.build_harness(feats)
             for j, var in enumerate(variants):
-                od2 = os.path.join(ck.outdir, "rep-%s-%s-%d" % (k, feats.replace(",", "_") or "none", j))
+                od2 = os.path.join(ck.outdir, "rep-%s%s-%s-%d" % (sub, k, feats.replace(",", "_") or "none", j))
                 a = {"kind": k, "in": ",".join(rec_files), "chunk": 1000000}
                 a.update(var)
                 r2 = vlib.run_driver(binary, "replay", a, od2)
@@ -36,7 +36,7 @@ def _record_and_replay(ck, prop, tier, seed, base_args, variants, features_list=
         ck.sample_from(rec_files, 1)
         results = vlib.validate("TraceManager", all_files, [prop])
         ck.add_validation(results, driver_cmd=cmds)
-        prod = os.path.join(ck.outdir, "product-%s.ndjson" % k)
+        prod = os.path.join(ck.outdir, "product-%s%s.ndjson" % (sub, k))
         n = vlib.product_trace(configs, prop, prod, labels)
         ck.cov["evaluations"] += n
         pres = vlib.validate("TraceConfig", [prod], [prop])
@@ -53,9 +53,12 @@ def c06(ck, tier, seed):
                       "against TraceManager (obligation cache:<op>: the result denotes the operator applied to the operands' "
                       "denotations), and the product trace against TraceConfig (same truth table, node count and order for every "
                       "call under every capacity)")
-    base = {"count": 40 if tier == "quick" else 400, "nmax": 5, "steps": 60}
     variants = [{"cache": 1}, {"cache": 2, "threads": 4}, {"cache": 16}]
+    base = {"count": 25 if tier == "quick" else 300, "nmax": 5, "steps": 60}
     _record_and_replay(ck, "C06", tier, seed, base, variants)
+    # stress histories: few operands, every operator again and again with varying numeric arguments
+    base = {"count": 25 if tier == "quick" else 300, "nmax": 5, "steps": 120, "stress": 1}
+    _record_and_replay(ck, "C06", tier, seed + 1000, base, variants, sub="stress")
     import checks
     checks.store_mc(ck, tier)
     ck.assumptions += ["cache insertion/hit events are not instrumented (no hook): only observable results are judged"]
